@@ -151,7 +151,7 @@ PROPS = {
               'declared shape does not panic and returns one bit per output, (b) the executable well-definedness predicate valid_spec_reg '
               '(every read register exists and was written, every input instruction names an existing bit, outputs written). SSA circuits: CBMC '
               'runs out of memory on the impl-Iterator chains of Circuit::validate (measured), so the stand-in is an exhaustive concrete '
-              'enumeration (all SSA and register circuits with <= 1 (quick) / <= 2 (thorough) gates over 7 party shapes incl. empty parties, '
+              'enumeration (all SSA and register circuits with <= 1 (quick) / <= 2 (thorough) gates over 10 party shapes incl. empty first, middle and last parties, '
               'indices incl. out-of-range) plus random deeper circuits: every accepted circuit is evaluated on every input and compared with a '
               'reference interpreter that refuses undefined reads.',
         note='Trusted (Verus part): derived PartialEq / PartialOrd of Reg(u32) compare the field (external_body impls); Iterator::all for `== 0` modelled by a '
@@ -212,9 +212,9 @@ PROPS = {
     ),
     'C13': dict(
         units=['arith'],
-        deps=[('builder', 'C04')],
-        witness=['c13', '--max', '4', '--per', '40'],
-        witness_thorough=['c13', '--max', '8', '--per', '3000'],
+        deps=[('builder', 'C04'), ('branches', 'C02')],
+        witness=[['c13', '--max', '4', '--per', '40'], ['c02', '--random', '0', '--programs', '250', '--join-only']],
+        witness_thorough=[['c13', '--max', '8', '--per', '3000'], ['c02', '--random', '0', '--programs', '20000', '--join-only']],
         level='proof',
         technique='Verus contracts on the real compare-exchange layer (push_gt_circuit, push_condswap, push_eq_circuit, push_sorter), on the per-entry closure of the join built-in and on the pair guard of compile_bitonic_merge (lifted)',
         claim='Unbounded deductive proof (Verus/Z3) of the compare-exchange layer used by join: push_gt_circuit returns exactly the unsigned '
@@ -223,13 +223,15 @@ PROPS = {
               'join built-in forces every wire but the flag to zero where the pair is not joined (unflagged entries are all zero); the guard computed for '
               'every pair of adjacent rows of the merged list (one iteration of the window loop of compile_bitonic_merge, lifted up to the callback): the pair '
               'is joined exactly when the keys agree bit for bit AND the tag bits differ (one row from each array - each common key once, never two rows of '
-              'the same array); the rows handed to the merger (one iteration of each row-building loop, lifted): an element becomes its own wires, zero '
+              'the same array); the per-pair closure of the for-join loop (unit branches, run as a dependency; clauses tagged C02) leaves the panic record '
+              'untouched where the pair is not joined, so the loop body panics only for joined pairs; the rows handed to the merger (one iteration of each row-building loop, lifted): an element becomes its own wires, zero '
               'padding up to max_elem_bits and the tag wire (0 for the first array, 1 for the second) inserted right after the key. The bitonic network '
               'topology (push_bitonic_merger / push_bitonic_sorter) and compile_bitonic_merge (padding, tag bit, duplicate guard) are NOT under '
               'contract: a bounded differential through compile + eval runs for-join loops and the join built-in for every size pair up to (4,4) '
               '(thorough (8,8)) on sorted key arrays (random keys incl. 0 and 255, identical and disjoint sets, one key repeated within one array) '
               'against a reference merge join (body once per common key with the matching payloads; flagged entries exactly the common keys, zero '
-              'elsewhere, flags sorted).',
+              'elsewhere, flags sorted); and source programs that start with a for-join loop whose body can fail (division, overflow, shift) are '
+              'compared with a reference interpreter on 30 inputs each (a panic exactly when the body fails for a JOINED pair).',
         note='Trusted: as C04; MergeMode (a dyn callback) is an opaque stand-in in the lifted window iteration (R5e: the statements from the callback on are dropped). <[T]>::to_vec returns the slice contents (assume_specification). Unverified: network topology, the order of the rows (first array ascending, second descending).',
         title='join: compare-exchange layer (gt / condswap / eq) exact for every width; network topology unverified',
         unverified=['push_bitonic_merger, push_bitonic_sorter (network topology)', 'compile_bitonic_merge: the order of the rows of the merged list, the empty rows; JoinLoop lowering as a whole: bounded differential only'],
